@@ -66,6 +66,8 @@ func (self *Interpreter) letStatement(node ast.AnalyzedLetStatement) *value.Inte
 	}
 
 	if node.Expression.Type().Kind() != ast.AnyTypeKind && node.Expression.Type().Kind() != node.OptType.Kind() {
+		// (`let x: any = <value of a type that contains any>`: nothing to validate, but the variable exists)
+		self.addVar(node.Ident.Ident(), *rhsVal)
 		return nil
 	}
 
